@@ -311,7 +311,8 @@ Record mon := Mon {
   m_sequential : bool;                                (* no thread was ever parked so far *)
   m_gone : list Z;                                    (* ids displaced so far (sequential prefix) and not served again *)
   m_maxterm : list (Z * Z);                           (* per id: largest term reported since it is continuously served *)
-  m_last : option (hop * hobs)                        (* the label the next snapshot closes *)
+  m_last : option (hop * hobs);                       (* the label the next snapshot closes *)
+  m_accepted : list sdig                              (* storage image of every heartbeat that was not rejected so far *)
 }.
 
 Fixpoint zz_get (l : list (Z * Z)) (k : Z) : Z :=
@@ -349,7 +350,7 @@ Definition mon_step (wb : bool) (m : mon) (o : hop) (b : hobs) : mon * option st
   match o, b with
   | OSnap _, HoSnap c1 s1 =>
       match m_last m with
-      | None => (Mon c1 s1 (m_pending m) (m_sequential m) (m_gone m) (map (fun a => (d_id a, d_term a)) c1) None, None)
+      | None => (Mon c1 s1 (m_pending m) (m_sequential m) (m_gone m) (map (fun a => (d_id a, d_term a)) c1) None (m_accepted m), None)
       | Some (o0, b0) =>
           let verdict := judge wb m o0 b0 c1 s1 in
           let pend := match o0, b0 with
@@ -363,16 +364,33 @@ Definition mon_step (wb : bool) (m : mon) (o : hop) (b : hobs) : mon * option st
           let bad_storage := judge_storage && existsb (fun s => existsb (Z.eqb (sd_id s)) gone) s1 in
           let term_back := existsb (fun a => d_term a <? zz_get (m_maxterm m) (d_id a)) c1 in
           let maxterm := map (fun a => (d_id a, Z.max (d_term a) (zz_get (m_maxterm m) (d_id a)))) c1 in
+          (* storage never holds the record of a heartbeat that was rejected, or not (yet) accepted: the storage writes of a
+             heartbeat come after its locked section *)
+          let ok_res := match b0 with HoRes HErr | HoRes HBad => false | _ => true end in
+          let accepted := match o0 with
+                          | OHb r | OSaveRaw r => if ok_res then sdig_of r :: m_accepted m else m_accepted m
+                          | OBegin _ r => match b0 with HoRes HOk => sdig_of r :: m_accepted m | _ => m_accepted m end
+                          | OStep t | ORun t => match regs_get (m_pending m) t with
+                                                | Some r => if ok_res then sdig_of r :: m_accepted m else m_accepted m
+                                                | None => m_accepted m end
+                          | _ => m_accepted m end in
+          let unaccepted := existsb (fun s => negb (existsb (sdig_eqb s) accepted)) s1 in
           let verdict := match verdict with
                          | Some sg => Some sg
-                         | None => if term_back then Some "C06:reported-term-below-an-earlier-reported-term"
+                         | None => if unaccepted then Some "C06:storage-holds-a-record-of-a-heartbeat-that-was-not-accepted" else
+                                   if term_back then Some "C06:reported-term-below-an-earlier-reported-term"
                                    else if bad_storage
                                    then Some (if wb then "C06:displaced-region-back-in-storage-after-region-storage-flush"
                                               else "C06:displaced-region-still-in-storage")
                                    else None end in
-          (Mon c1 s1 pend seq gone maxterm None, verdict)
+          (Mon c1 s1 pend seq gone maxterm None accepted, verdict)
       end
-  | _, _ => (Mon (m_cache m) (m_stor m) (m_pending m) (m_sequential m) (m_gone m) (m_maxterm m) (Some (o, b)), None)
+  | _, _ =>
+      (* several labels may run between two snapshots: a heartbeat handled in one piece is recorded at once *)
+      let accepted := match o, b with
+                      | OHb r, HoRes HOk | OSaveRaw r, _ | OBegin _ r, HoRes HOk => sdig_of r :: m_accepted m
+                      | _, _ => m_accepted m end in
+      (Mon (m_cache m) (m_stor m) (m_pending m) (m_sequential m) (m_gone m) (m_maxterm m) (Some (o, b)) accepted, None)
   end.
 
 Fixpoint mon_run (wb : bool) (m : mon) (ops : list hop) (obs : list hobs) : option string :=
@@ -388,7 +406,7 @@ Definition hop_wf (o : hop) : bool :=
   match o with OHb r | OBegin _ r => wf_region r | _ => true end.
 
 Definition h_monitor (wb : bool) (ops : list hop) (obs : list hobs) : option string :=
-  if forallb hop_wf ops then mon_run wb (Mon [] [] [] true [] [] None) ops obs else None.
+  if forallb hop_wf ops then mon_run wb (Mon [] [] [] true [] [] None []) ops obs else None.
 
 (* ---------------------------------------------------------------------------------------- *)
 Inductive hcase := CaseHB (wb : bool) (ops : list hop) (obs : list hobs).
